@@ -318,6 +318,7 @@ async fn udp_rounds(seed: u64, rounds: u64) -> Value {
     let syn = codec::encode_default(&WMsg::Syn { cluster: "c".into(), digest: vec![] });
     let mut violations: Vec<String> = Vec::new();
     let (mut rounds_ok, mut garbage, mut last_hb) = (0u64, 0u64, 0u64);
+    let mut tool_trouble: Option<String> = None;
     let mut buf = vec![0u8; 65536];
     for r in 0..rounds {
         for k in 0..12 {
@@ -332,40 +333,49 @@ async fn udp_rounds(seed: u64, rounds: u64) -> Value {
             let _ = tester.send_to(&b, node_addr).await;
             garbage += 1;
         }
-        let _ = tester.send_to(&syn, node_addr).await;
-        // wait for the SYN-ACK (garbage that happens to decode may be answered too: skip non-SYN-ACKs)
-        let deadline = tokio::time::Instant::now() + Duration::from_secs(5);
+        // wait for the SYN-ACK (garbage that happens to decode may be answered too: skip non-SYN-ACKs).
+        // Datagrams can be dropped by the kernel under a flood of 64 KB garbage: the SYN is re-sent;
+        // only a loop that has TERMINATED is a verdict, a missing answer from a live loop is tool trouble.
         let mut answered = false;
-        while tokio::time::Instant::now() < deadline {
-            match tokio::time::timeout(Duration::from_millis(500), tester.recv_from(&mut buf)).await {
-                Ok(Ok((n, _))) => {
-                    if let Ok(d) = codec::decode(&buf[..n]) {
-                        if let WMsg::SynAck { digest, .. } = d.msg {
-                            if let Some(me) = digest.iter().find(|x| x.id.node_id == "n1") {
-                                if me.hb <= last_hb && last_hb > 0 && r > 0 { /* older reply */ } else { last_hb = me.hb; answered = true; break; }
+        for _attempt in 0..6 {
+            let _ = tester.send_to(&syn, node_addr).await;
+            let deadline = tokio::time::Instant::now() + Duration::from_secs(5);
+            while tokio::time::Instant::now() < deadline && !answered {
+                match tokio::time::timeout(Duration::from_millis(500), tester.recv_from(&mut buf)).await {
+                    Ok(Ok((n, _))) => {
+                        if let Ok(d) = codec::decode(&buf[..n]) {
+                            if let WMsg::SynAck { digest, .. } = d.msg {
+                                if let Some(me) = digest.iter().find(|x| x.id.node_id == "n1") {
+                                    if me.hb > last_hb || r == 0 { last_hb = last_hb.max(me.hb); answered = true; }
+                                }
                             }
                         }
                     }
+                    _ => {}
                 }
-                _ => {}
             }
+            if answered { break; }
         }
         let mut ended = false;
         tokio::select! { biased; _ = &mut tw => { ended = true; } _ = std::future::ready(()) => {} }
         if ended { violations.push(format!("the gossip loop terminated after garbage datagrams / unreachable peer (round {r})")); break; }
-        if !answered { violations.push(format!("a valid SYN was not answered within 5 s after garbage datagrams (round {r})")); break; }
+        if !answered { tool_trouble = Some(format!("a valid SYN was not answered in 30 s by a loop that is still alive (round {r})")); break; }
         rounds_ok += 1;
     }
     // heartbeats kept increasing, and a shutdown request completes
     let hb_a = { let cc = handle.chitchat(); let mut g = cc.lock().await; u64::from(g.self_node_state().heartbeat()) };
-    tokio::time::sleep(Duration::from_millis(200)).await;
-    let hb_b = { let cc = handle.chitchat(); let mut g = cc.lock().await; u64::from(g.self_node_state().heartbeat()) };
-    if violations.is_empty() && hb_b <= hb_a { violations.push("the node stopped heartbeating".into()); }
-    let shut = tokio::time::timeout(Duration::from_secs(5), handle.shutdown()).await;
+    let mut hb_b = hb_a;
+    for _ in 0..100 {
+        tokio::time::sleep(Duration::from_millis(100)).await;
+        hb_b = { let cc = handle.chitchat(); let mut g = cc.lock().await; u64::from(g.self_node_state().heartbeat()) };
+        if hb_b > hb_a { break; }
+    }
+    if violations.is_empty() && tool_trouble.is_none() && hb_b <= hb_a { violations.push("the node stopped heartbeating (no increment in 10 s at a 40 ms gossip interval)".into()); }
+    let shut = tokio::time::timeout(Duration::from_secs(30), handle.shutdown()).await;
     let shutdown_ok = matches!(shut, Ok(Ok(())));
-    if violations.is_empty() && !shutdown_ok { violations.push("shutdown request did not complete cleanly".into()); }
+    if violations.is_empty() && tool_trouble.is_none() && !shutdown_ok { violations.push("shutdown request did not complete within 30 s".into()); }
     json!({"rounds": rounds, "rounds_ok": rounds_ok, "garbage_datagrams": garbage, "heartbeat_seen": last_hb,
-           "heartbeat_progress": hb_b > hb_a, "shutdown_ok": shutdown_ok, "violations": violations})
+           "heartbeat_progress": hb_b > hb_a, "shutdown_ok": shutdown_ok, "violations": violations, "tool_trouble": tool_trouble})
 }
 
 fn main() {
